@@ -1,36 +1,62 @@
 (* C15 -- rename is behaviour-preserving and complete.
-   Model: model/SymGraph.v (symbols.rs: rename = edge relabelling, query_traversal_steps, query_steps_to_path),
-   model/Analysis.v (definitions and usages), model/Rename.v (lsp/rename.rs); vocabulary: spec/RenameSpec.v. *)
+   Model: model/SymGraph.v (symbols.rs: query_traversal_steps with bubbling / super / dotted paths), model/Analysis.v
+   (definitions and usages), model/Rename.v (lsp/rename.rs); vocabulary: spec/RenameSpec.v. *)
 From Coq Require Import List NArith Arith Bool.
 Import ListNotations.
 From Mos Require Import model.SymGraph model.Analysis model.Rename spec.NavSpec spec.RenameSpec
   proofs.SymGraphProofs proofs.NavProofs proofs.GreedyProofs proofs.RenameProofs.
 
-(* The table after `rename` is the table before with relabelled edges: same edges, same order, same endpoints; the
-   label differs exactly on the edges parent -> symbol. *)
-Theorem C15_rename_is_relabelling : forall g p c new, relabelled g (rename g p c new) p c new.
-Proof. exact rename_relabelled. Qed.
-Print Assumptions C15_rename_is_relabelling.
+(* The edit set, for every database, position and hash order that makes this symbol the first one found: exactly
+   the places (definition site, usages) where the symbol found at the position is written with the name under the
+   cursor -- nothing else: not `super`, not another name of the same symbol (import alias), and, the places being the
+   symbol's recorded usages (C16), no comment, string or equally named symbol of another scope. *)
+Theorem C15_edits_are_the_named_occurrences : forall names d f l c new old edits,
+  rename_symbol names d f l c new = RenEdits old edits ->
+  name_under_cursor names d f l c = Some old /\ is_super old = false /\ ident_ok old = true /\
+  forall e, In e edits <->
+    exists dl off id, In dl (definition_and_usages d) /\ In (off, id) (names (dl_span dl)) /\ id = old /\
+                      e = mkEdit (subspan (dl_span dl) off (off + List.length id)) new.
+Proof. exact rename_symbol_edits. Qed.
+Print Assumptions C15_edits_are_the_named_occurrences.
 
-(* For ALL tables, scopes and paths (dotted, `super`, bubbling outward any number of scopes): if the new name is fresh,
-   every lookup that resolved before the rename resolves through exactly the same nodes afterwards -- same bubbling
-   steps, same Symbol steps, hence the same symbol and value -- once every identifier that crossed an edge
-   parent -> symbol is replaced by the new name (which is what the text edit does to the usages of the symbol).
-   In particular lookups that do not touch the symbol are unchanged (their path is not edited), and no lookup is
-   captured by an inner or outer scope. *)
-Theorem C15_rename_iso : forall g p c new, functional g -> fresh g new ->
+(* ... and the name under the cursor is a name of one of those places, at the cursor's column *)
+Theorem C15_name_under_cursor : forall names d f l c old,
+  name_under_cursor names d f l c = Some old ->
+  exists dl off, In dl (definition_and_usages d) /\ span_contains (dl_span dl) f l c = true /\
+                 In (off, old) (names (dl_span dl)) /\
+                 s_c0 (dl_span dl) + off <= c <= s_c0 (dl_span dl) + off + List.length old.
+Proof. exact name_under_cursor_spec. Qed.
+Print Assumptions C15_name_under_cursor.
+
+(* every edit writes exactly the new name (unguarded since the repair of F-C15a) *)
+Theorem C15_edit_text_is_new_name : forall names d f l c new old edits,
+  rename_symbol names d f l c new = RenEdits old edits -> forall e, In e edits -> ed_text e = new.
+Proof. exact edit_text_is_new_name. Qed.
+Print Assumptions C15_edit_text_is_new_name.
+
+(* What assembling the edited text builds is the table with relabelled edges: same edges, same order, same
+   endpoints; the label differs exactly on the edges INTO the symbol that carried the old name. *)
+Theorem C15_relabel_is_relabelling : forall g c old new, relabelled g (relabel g c old new) c old new.
+Proof. exact relabel_relabelled. Qed.
+Print Assumptions C15_relabel_is_relabelling.
+
+(* For ALL functional tables, scopes and paths (dotted, `super`, bubbling outward any number of scopes), a fresh new
+   name and any old name: every lookup that resolved before resolves through exactly the same nodes afterwards --
+   same bubbling steps, same Symbol steps, hence the same symbol and value -- once every identifier that reached the
+   symbol under the old name is replaced by the new name (which is what the text edit does).  Lookups that do not
+   mention the symbol, or reach it under another name (alias), are unchanged; no lookup is captured by a nearer or
+   farther scope. *)
+Theorem C15_rename_iso : forall g c old new, functional g -> fresh g new -> is_super old = false ->
   forall fuel scope pth steps,
     pth <> [] ->
     query_traversal_steps fuel g scope pth = Some steps ->
     symbols_of steps <> [] ->
-    query_traversal_steps fuel (rename g p c new) scope
-      (ren_path p c new (resolving_scope scope steps) (symbols_of steps) pth) = Some steps.
-Proof. exact rename_iso. Qed.
+    query_traversal_steps fuel (relabel g c old new) scope (ren_path c old new (symbols_of steps) pth) = Some steps.
+Proof. exact relabel_iso. Qed.
 Print Assumptions C15_rename_iso.
 
-(* the invariant `functional` is kept by a rename to a fresh name (so renames compose) *)
-Theorem C15_rename_keeps_functional : forall g p c new, functional g -> fresh g new -> functional (rename g p c new).
-Proof. exact rename_functional. Qed.
+Theorem C15_rename_keeps_functional : forall g c old new, functional g -> fresh g new -> functional (relabel g c old new).
+Proof. exact relabel_functional. Qed.
 Print Assumptions C15_rename_keeps_functional.
 
 (* `functional` is what every table built by the code satisfies: the empty table does, and insert (called only after
@@ -43,63 +69,42 @@ Theorem C15_functional_is_invariant :
 Proof. exact functional_invariant. Qed.
 Print Assumptions C15_functional_is_invariant.
 
-(* The edit set: one edit per definition site / usage of the symbol found at the position, except usages written
-   `super` -- nothing else (comments, strings, equally named symbols of other scopes are no usages of it, C16). *)
-Theorem C15_edit_spans_are_usages : forall fuel g slice nx d new g' edits,
-  rename_symbol fuel g slice nx d new = RenEdits g' edits ->
-  map ed_span edits = map dl_span (filter (fun dl => negb (is_super_slice slice dl)) (definition_and_usages d)).
-Proof. exact rename_symbol_spans. Qed.
-Print Assumptions C15_edit_spans_are_usages.
-
-(* Renaming back restores the table and every edited path, under the exact guard that all edges parent -> symbol
-   carried the old name (no second name for the same symbol in that scope). *)
-Theorem C15_roundtrip : forall g p c new old,
-  is_super new = false -> functional g -> uniform g p c old ->
-  rename (rename g p c new) p c old = g /\
-  forall pth n l, walk g n pth = Some l -> ren_path p c old n l (ren_path p c new n l pth) = pth.
+(* Renaming back (new -> old) restores the table and every edited path; no guard beyond freshness is needed now that
+   only the old name's edges are touched. *)
+Theorem C15_roundtrip : forall g c old new,
+  fresh g new ->
+  relabel (relabel g c old new) c new old = g /\
+  forall pth n l, walk g n pth = Some l -> ren_path c new old l (ren_path c old new l pth) = pth.
 Proof. exact roundtrip. Qed.
 Print Assumptions C15_roundtrip.
 
-(* F-C15a.  .import x as y from "b.asm" / lda y ; rename y -> zz: the argument `x as y` is replaced by the EMPTY
-   path, and x is renamed in b.asm. *)
-Theorem C15_import_alias_refuted :
-  exists g' edits, rename_handler 5 w_graph w_analysis w_slice 0 1 4 w_zz = RenEdits g' edits /\
-    In (mkEdit w_arg []) edits /\ In (mkEdit w_def_site [w_zz]) edits /\ In (mkEdit w_use [w_zz]) edits.
-Proof. exact import_alias_refuted. Qed.
-Print Assumptions C15_import_alias_refuted.
+(* F-C15a repaired.  .import x as y from "b.asm" / lda y: renaming y edits the alias half of the argument and the
+   use; renaming x edits the definition and the other half. *)
+Theorem C15_import_alias_repaired :
+  rename_handler w_analysis w_names 0 1 4 w_zz =
+    RenEdits w_y [mkEdit w_use w_zz; mkEdit (mkSpan 0 0 13 0 14) w_zz] /\
+  rename_handler w_analysis w_names 1 0 0 w_zz =
+    RenEdits w_x [mkEdit w_def_site w_zz; mkEdit (mkSpan 0 0 8 0 9) w_zz].
+Proof. exact import_alias_repaired. Qed.
+Print Assumptions C15_import_alias_repaired.
 
-(* Outside that class every edit writes exactly the new name (for all tables, usages through bubbling included). *)
-Theorem C15_edit_text_is_new_name : forall fuel g slice nx d new g' edits,
-  rename_symbol fuel g slice nx d new = RenEdits g' edits ->
-  Known_import_alias fuel g slice nx d = false ->
-  forall e, In e edits -> ed_text e = [new].
-Proof. exact edit_text_guarded. Qed.
-Print Assumptions C15_edit_text_is_new_name.
-
-(* Known finding shared with C16 (Known_greedy_untaken_definition).  foo: nop / { .if 0 { foo: nop } / lda foo }:
+(* Repaired defect shared with C16 (41281c3; the old behaviour).  foo: nop / { .if 0 { foo: nop } / lda foo }:
    on the analysed table the pass records `lda foo` as a usage of the untaken foo, so the rename of the outer foo
-   edits the definition only; on the build's table the same request also edits `lda foo`.  Outside the class the
+   edits the definition only; with the build's table the same request also edits `lda foo`.  Outside the class the
    lookups of the analysed run are the build's (C16_greedy_agrees_with_build), hence so are the recorded usages. *)
 Theorem C15_greedy_untaken_definition_refuted :
-  exists a a_b g1 g2,
+  exists a a_b,
     run_pass 5 [] gr_analysed_events = Some a /\ run_pass 5 [] gr_build_events = Some a_b /\
-    rename_handler 5 gw_table a gr_slice 0 0 0 gr_zz = RenEdits g1 [mkEdit gr_outer [gr_zz]] /\
-    rename_handler 5 (without gw_extra gw_table) a_b gr_slice 0 0 0 gr_zz =
-      RenEdits g2 [mkEdit gr_outer [gr_zz]; mkEdit gr_occ [gr_zz]].
+    rename_handler a gr_names 0 0 0 gr_zz = RenEdits gw_foo [mkEdit gr_outer gr_zz] /\
+    rename_handler a_b gr_names 0 0 0 gr_zz = RenEdits gw_foo [mkEdit gr_outer gr_zz; mkEdit gr_occ gr_zz].
 Proof. exact greedy_rename_refuted. Qed.
 Print Assumptions C15_greedy_untaken_definition_refuted.
 
-(* the witness is inside the class, a plain program outside (non-vacuity of the guard) *)
-Example C15_witness_in_class :
-  Known_import_alias 5 w_graph w_slice 2 (mkDef (Some (mkLoc 1 w_def_site)) [mkLoc 0 w_use; mkLoc 0 w_arg]) = true.
-Proof. vm_compute. reflexivity. Qed.
-
-Example C15_plain_outside_class :
-  let foo := [102; 111; 111]%N in let sc := [36; 115]%N in
-  let g := [mkEdge 1 foo 2; mkEdge 0 sc 1] in
-  let slice := fun _ : Span => [foo] in
-  let d := mkDef (Some (mkLoc 1 (mkSpan 0 0 0 0 3))) [mkLoc 1 (mkSpan 0 2 4 2 7)] in
-  Known_import_alias 5 g slice 2 d = false /\
-  exists g', rename_symbol 5 g slice 2 d [122]%N =
-             RenEdits g' [mkEdit (mkSpan 0 0 0 0 3) [[122]%N]; mkEdit (mkSpan 0 2 4 2 7) [[122]%N]].
-Proof. vm_compute. split; [reflexivity|eexists; reflexivity]. Qed.
+(* non-vacuity of C15_rename_iso: a lookup that bubbles two scopes and crosses the renamed edge *)
+Example C15_example_iso :
+  let foo := [102; 111; 111]%N in let bar := [98; 97; 114]%N in let s := [36; 115]%N in let zz := [122; 122]%N in
+  let g := [mkEdge 3 bar 4; mkEdge 0 foo 3; mkEdge 1 s 2; mkEdge 0 s 1] in
+  query_traversal_steps 9 g 2 [foo; bar] = Some [Super 1; Super 0; Symbol 3; Symbol 4] /\
+  ren_path 3 foo zz [3; 4] [foo; bar] = [zz; bar] /\
+  query_traversal_steps 9 (relabel g 3 foo zz) 2 [zz; bar] = Some [Super 1; Super 0; Symbol 3; Symbol 4].
+Proof. vm_compute. repeat split; reflexivity. Qed.
